@@ -10,6 +10,7 @@ import (
 	"github.com/ethereum/go-ethereum/common"
 	"github.com/ethereum/go-ethereum/crypto"
 
+	tsstypes "github.com/teleport-network/teleport/x/xibc/clients/tss-client/types"
 	clienttypes "github.com/teleport-network/teleport/x/xibc/core/client/types"
 	packettypes "github.com/teleport-network/teleport/x/xibc/core/packet/types"
 	"github.com/teleport-network/teleport/x/xibc/exported"
@@ -78,6 +79,15 @@ func newAuthWorld() *authWorld {
 }
 
 func (a *authWorld) counter(r, chain string) string { return "cp-" + r + "-" + chain }
+
+// what the sender puts into the proof field: junk, or the TSS account's address (what a TSS client compares its
+// "proof" with - the keeper must have replaced the field by the signer before that)
+func (a *authWorld) proof(kind string) []byte {
+	if kind == "tssaddr" {
+		return []byte(a.C.Accts[auTSS].Acc.String())
+	}
+	return []byte("no-proof")
+}
 
 // privileged call data: contract name, address and packed call
 func (a *authWorld) privCall(method string) (string, common.Address, []byte) {
@@ -168,14 +178,33 @@ func (a *authWorld) project() M {
 		cm = append(cm, int64(r.Sequence))
 	}
 	st["commits"] = cm
-	ar := M{}
-	for k, bz := range a.W.AckBytes {
+	ar := []interface{}{}
+	for _, pa := range c.App.XIBCKeeper.PacketKeeper.GetAllPacketAcks(ctx) {
+		k := fmt.Sprintf("%s/A/%d", pa.SrcChain, pa.Sequence)
+		e := M{"c": strings.TrimPrefix(pa.SrcChain, "cli-"), "s": int64(pa.Sequence), "rel": "?", "code": int64(-1)}
 		var ack packettypes.Acknowledgement
-		if ack.ABIDecode(bz) == nil {
-			ar[k] = M{"rel": ack.Relayer, "code": int64(ack.Code)}
+		if bz, ok := a.W.AckBytes[k]; ok && ack.ABIDecode(bz) == nil {
+			// the bytes harvested from the event are the committed ones
+			if h := packettypes.CommitAcknowledgement(bz); fmt.Sprintf("%x", h) == fmt.Sprintf("%x", pa.Data) {
+				e["rel"], e["code"] = ack.Relayer, int64(ack.Code)
+			}
 		}
+		ar = append(ar, e)
 	}
 	st["acks"] = ar
+	fee := M{}
+	for n, i := range auAcct {
+		fee[n] = a.W.viewBig(c, erc20ABI, a.W.Origin["A"], "balanceOf", c.Accts[i].Eth)
+	}
+	st["fee"] = fee
+	st["sent"] = a.W.viewBig(c, packetABI, packetAddr, "getNextSequenceSend", auName("tss")) - 1
+	hs := M{}
+	for _, n := range []string{"one", "two"} {
+		cs, _ := c.App.XIBCKeeper.ClientKeeper.GetClientState(ctx, auName(n))
+		hs[n] = int64(cs.GetLatestHeight().GetRevisionHeight()) - 2
+	}
+	hs["tss"] = int64(a.tssVersion())
+	st["upd"] = hs
 	tok := a.W.Origin["A"]
 	priv := M{
 		"chainName": fmt.Sprint(viewAny(c, packetABI, packetAddr, "chainName")),
@@ -201,6 +230,16 @@ func proofHeightOf(cs interface{ GetLatestHeight() exported.Height }) clienttype
 		return clienttypes.NewHeight(0, 1) // TSS clients have no heights; the message must carry a non-zero one
 	}
 	return h
+}
+
+// tssVersion: the number of accepted TSS updates, read back from the stored client state (the updates carry the
+// counter in the second byte of the public key)
+func (a *authWorld) tssVersion() int {
+	cs, _ := a.C.App.XIBCKeeper.ClientKeeper.GetClientState(a.C.Ctx(), auName("tss"))
+	if t, ok := cs.(*tsstypes.ClientState); ok && len(t.Pubkey) == 2 && t.Pubkey[0] == 9 {
+		return int(t.Pubkey[1])
+	}
+	return 0
 }
 
 func viewAny(c *Chain, a abiT, addr common.Address, method string, args ...interface{}) interface{} {
@@ -244,7 +283,10 @@ func driveAuth(t *testing.T, in, out string, seed int64) {
 				ch, s := str(st["chain"]), auAcct[str(st["signer"])]
 				var r TxResult
 				if ch == "tss" {
-					r = a.L["tss"].UpdateTSS(auName(ch), s)
+					hd := &tsstypes.Header{TssAddress: c.Accts[auTSS].Acc.String(), Pubkey: []byte{9, byte(a.tssVersion() + 1)}, PartPubkeys: [][]byte{{7}}, Threshold: 1}
+					msg, err := clienttypes.NewMsgUpdateClient(auName(ch), hd, c.Accts[s].Acc)
+					must(err)
+					r = c.DeliverMsgs(c.Accts[s], msg)
 				} else {
 					r = a.L[ch].UpdateTM(auName(ch), 1, a.Next[ch], s)
 					if r.OK() {
@@ -270,7 +312,7 @@ func driveAuth(t *testing.T, in, out string, seed int64) {
 				bz, err := p.ABIPack()
 				must(err)
 				cs, _ := c.App.XIBCKeeper.ClientKeeper.GetClientState(c.Ctx(), auName(ch))
-				msg := packettypes.NewMsgRecvPacket(bz, []byte("no-proof"), proofHeightOf(cs), c.Accts[s].Acc)
+				msg := packettypes.NewMsgRecvPacket(bz, a.proof(str(st["proof"])), proofHeightOf(cs), c.Accts[s].Acc)
 				r := c.DeliverMsgs(c.Accts[s], msg)
 				a.W.harvest("A", r)
 				if r.OK() && seq > a.RecvN[ch] {
@@ -297,7 +339,7 @@ func driveAuth(t *testing.T, in, out string, seed int64) {
 				ackbz, err := packettypes.NewAcknowledgement(0, []byte{}, "", rel, 0).ABIPack()
 				must(err)
 				cs, _ := c.App.XIBCKeeper.ClientKeeper.GetClientState(c.Ctx(), auName("tss"))
-				msg := packettypes.NewMsgAcknowledgement(bz, ackbz, []byte("no-proof"), proofHeightOf(cs), c.Accts[s].Acc)
+				msg := packettypes.NewMsgAcknowledgement(bz, ackbz, a.proof(str(st["proof"])), proofHeightOf(cs), c.Accts[s].Acc)
 				r := c.DeliverMsgs(c.Accts[s], msg)
 				line["res"], line["msg"] = resOf(r), clip(r.Log)
 			case "Priv":
